@@ -135,14 +135,51 @@ def classify(st, names):
     return 'OTHER:' + s
 
 
-def run_body(body, cell, names):
+def acc_guard(test, names):
+    """Guards on the emptiness of an accumulator (`if next_prefixes:`): not a function of the order type, both outcomes are followed."""
+    accs = (names['acc_props'], names['acc_children'])
+    t = test.operand if isinstance(test, ast.UnaryOp) and isinstance(test.op, ast.Not) else test
+    if isinstance(t, ast.Call) and src(t.func) in ('len', 'bool') and len(t.args) == 1:
+        t = t.args[0]
+    return isinstance(t, ast.Name) and t.id in accs
+
+
+def run_paths(body, cell, names):
+    """All action lists of the loop body in one order-type cell (guards on accumulator emptiness fork)."""
+    out, pending = [], [[]]
+    while pending:
+        bits = pending.pop()
+        c = Cell(cell.a, cell.b, cell.c, cell.d)
+        extra = []
+        acts = run_body(body, c, names, list(bits), extra)
+        if extra:
+            if len(bits) > 6:
+                raise AnalysisError('%s: too many accumulator guards in _find' % FILE)
+            pending.append(bits + [False])
+            pending.append(bits + [True])
+        else:
+            out.append(acts)
+    return out
+
+
+def run_body(body, cell, names, bits=None, extra=None):
     """Abstract execution of the loop body in one order-type cell -> list of actions."""
     acts = []
+    bits = [] if bits is None else bits
+    extra = [] if extra is None else extra
+
+    def guard(test):
+        if acc_guard(test, names):
+            if bits:
+                return bits.pop(0)
+            extra.append(test)
+            return False
+        return decide(test, cell, names)
 
     def block(stmts):
         for st in stmts:
             if isinstance(st, ast.If):
-                if decide(st.test, cell, names):
+                if guard(st.test):
                     if block(st.body):
                         return True
                 elif st.orelse:
@@ -249,12 +286,16 @@ def check_find(rep, methods):
         cell = Cell(a, b, c, d)
         desc = 'len(part)%slength, low%spart[:length], part[:length]%shigh, len(number)%slength' % tuple('<=>'[x + 1] for x in (a, b, c, d))
         try:
-            acts = run_body(loop.body, cell, names)
+            paths = run_paths(loop.body, cell, names)
         except Depends as e:
             rep.fail('DT.cell', FILE, '_find', 'order type (%s)' % desc, loop.lineno, str(e))
             continue
-        form, problem = normal_form(acts)
         want = spec_actions(a, b, c)
+        acts, form, problem = paths[0], None, None
+        for acts in paths:
+            form, problem = normal_form(acts)
+            if problem is not None or form != want:
+                break
         desc = 'len(part)%slength, low%spart[:length], part[:length]%shigh, len(number)%slength' % tuple('<=>'[x + 1] for x in (a, b, c, d))
         if problem is not None and problem.startswith('ALIAS:'):
             rep.fail('DT.no-alias', FILE, '_find', problem[6:], loop.lineno,
@@ -480,6 +521,41 @@ def check_layout(rep, methods, funcs, names):
     return entry
 
 
+def check_source(rep, funcs):
+    """DT.source: what get() hands to read(), and read() to _parse(), is the opened registry itself: a generator, map or
+    comprehension in between rewrites or drops lines, so the parts and properties are no longer those the file prescribes."""
+    def identity(x):
+        return isinstance(x, ast.GeneratorExp) and len(x.generators) == 1 and not x.generators[0].ifs \
+            and isinstance(x.elt, ast.Name) and isinstance(x.generators[0].target, ast.Name) and x.elt.id == x.generators[0].target.id
+    n_sites = 0
+    for fname, callee in (('get', 'read'), ('read', '_parse')):
+        fn = funcs.get(fname)
+        if fn is None:
+            raise AnalysisError('%s: %s() vanished' % (FILE, fname))
+        for c in ast.walk(fn):
+            if isinstance(c, ast.Call) and isinstance(c.func, ast.Name) and c.func.id == callee and c.args:
+                n_sites += 1
+                x = c.args[0]
+                while identity(x):
+                    x = x.generators[0].iter
+                bad = None
+                if isinstance(x, (ast.GeneratorExp, ast.ListComp, ast.SetComp)):
+                    bad = 'a comprehension over the lines'
+                elif isinstance(x, ast.Call) and src(x.func) in ('map', 'filter', 'sorted', 'reversed', 'list', 'set', 'iter', 'enumerate', 'zip'):
+                    bad = '%s(...) over the lines' % src(x.func)
+                elif isinstance(x, ast.Name):
+                    # the name must not be rebound to a transformed iterable inside the function
+                    for a in ast.walk(fn):
+                        if isinstance(a, ast.Assign) and any(isinstance(t, ast.Name) and t.id == x.id for t in a.targets) \
+                                and isinstance(a.value, (ast.GeneratorExp, ast.ListComp)) and not identity(a.value):
+                            bad = '`%s`' % src(a)[:80]
+                rep.check(bad is None, 'DT.source', FILE, fname, src(c)[:120], c.lineno,
+                          '%s() hands %s to %s(): the registry is parsed from rewritten or filtered lines, so the properties attached to a part '
+                          'are not those written in the file' % (fname, bad, callee), what='%s(%s)' % (callee, src(c.args[0])[:40]))
+    if n_sites < 2:
+        raise AnalysisError('%s: the calls get() -> read() -> _parse() were not found' % FILE)
+
+
 def check(tier):
     rep = Report('C10', tier, level='proof',
                  rule_text='decision table of NumDB._find over the 27 order types of (len(part) vs length, low vs part[:length], '
@@ -493,6 +569,7 @@ def check(tier):
     check_wrappers(rep, methods)
     if names:
         check_layout(rep, methods, funcs, names)
+    check_source(rep, funcs)
     # the reader hands every written property of every line to the tree (shipped registries + the test registry)
     from ..reg import ReaderModel, Registry, registry_files
     model = ReaderModel()
